@@ -34,6 +34,8 @@ def run_whip(mods, ref, variable, dtype, limit, outfile, ctx, schedule, canary=F
     sys.argv = argv
     try:
         with patch.Patched(mods, fs, schedule=schedule), common.quiet():
+            if dtype is not None and not dtype.startswith('float'):
+                whip.np = npfacade.TypedZeros()         # the output grid of an integer type holds proxies too (rebinding undone on exit)
             try:
                 whip.main()
             except SystemExit as e:
@@ -80,7 +82,7 @@ def run_case(case):
     viol = {}
     runs = []
     for variable in [ref.fields[0], ref.fields[-1]]:
-        for dtype in (None, 'float32'):
+        for dtype in (None, 'float32', 'int32'):
             for limit in [None] + list(range(ref.nlev)):
                 for outfile in (None, 'out/grid' if False else 'mygrid'):
                     runs.append((variable, dtype, limit, outfile))
@@ -133,9 +135,11 @@ def make_replay(ref, v):
     import os
     from harness import replay_lib
     d = common.replay_dir('C10', v['signature'])
-    val = replay_lib.materialise_ref(ref, os.path.join(d, 'plt00010'))
-    data = replay_lib.concrete_data(ref, val)
     variable, dtype, limit, outfile = v['args']
+    # conversions are uninterpreted in the encoding: the replay's payload is chosen where a conversion through another
+    # type shows (odd integers + 0.75 between 2^24 and 2^25: float32 cannot hold them, truncation and rounding differ)
+    val = replay_lib.materialise_ref(ref, os.path.join(d, 'plt00010'), valuation=common.Valuation(cast_payload=dtype not in (None, 'float64')))
+    data = replay_lib.concrete_data(ref, val)
     lim = ref.nlev - 1 if limit is None else limit
 
     class C:
@@ -176,10 +180,10 @@ def cases():
 def main():
     rep = common.Report('C10')
     common.clear_replays('C10')
-    rep.rule = ('one case = one generated 3D structure; per case the real whip entry point runs for variable x dtype in {float64, float32} x '
+    rep.rule = ('one case = one generated 3D structure; per case the real whip entry point runs for variable x dtype in {float64, float32, int32} x '
                 'level limit x {default, explicit output}; the completion order of the imap_unordered tasks is symbolic: every order for <= 3 files '
                 'per level is a path')
-    rep.assumptions = ['payload words arbitrary; the float32 conversion is an uninterpreted function cast_float32(w) (its numeric effect is outside)',
+    rep.assumptions = ['payload words arbitrary; a conversion to float32 / int32 is an uninterpreted function cast_<type>(w), idempotent (its numeric effect is outside; replays use payload between 2^24 and 2^25 with a fractional part so that a detour through another type shows)',
                        'the interactive memory prompt is bypassed with --nochecks']
     rep.bounds = {'levels': '1-3', 'boxes_per_level': '1-4', 'files_per_level': '1-3'}
     common.run_cases(rep, run_case, cases())
